@@ -195,6 +195,8 @@ class Interp:
             interp.stats["invocations"] += 1
             if interp.cur is not None:
                 interp.cur["misses"] += 1
+                interp.cur["invoked"].append({"fname": fname, "target": interp.sb.rel(target) if target is not None else None,
+                                              "args": json.loads(json.dumps(args)), "kwargs": json.loads(json.dumps(kwargs))})
                 if target is not None:
                     # C10: the function starts with the target absent, an absolute normalised path,
                     # and every parent directory present
@@ -469,7 +471,7 @@ class Interp:
             for step in self.case["history"]:
                 self.log = []
                 self.cur = {"kind": step[0], "targets": [], "entry_violations": [], "hits": 0, "misses": 0,
-                            "raised_ids": [], "failed_targets": [], "exc_same": None, "hit_names": []}
+                            "raised_ids": [], "failed_targets": [], "exc_same": None, "hit_names": [], "invoked": []}
                 self.cur.update(read_cache_info(self.cachefile, self.sb))
                 self.meta.append(self.cur)
                 if step[0] == "mutate":
@@ -516,14 +518,21 @@ class Interp:
 def read_cache_info(cachefile, sb):
     """What the previous committed build recorded (read independently of the package)."""
     import gzip
-    info = {"old_outputs": [], "old_dirs": [], "cache_readable": False}
+    info = {"old_outputs": [], "old_dirs": [], "cache_readable": False, "old_records": []}
     try:
         with gzip.open(cachefile, "rt") as f:
             j = json.load(f)
+        def has_sf(o):
+            return bool(o.get("setupFailed")) or any(has_sf(x) for x in o.get("suboperations", []))
+
         def walk(ops):
             for o in ops:
                 if o.get("type") == "build_file" and not o.get("raised") and not o.get("setupFailed"):
                     info["old_outputs"].append(sb.rel(o["filename"]))
+                if o.get("type") in ("build_file", "subbuild") and not o.get("setupFailed"):
+                    info["old_records"].append({"type": o["type"], "fname": o["funcName"], "args": o["args"], "kwargs": o["kwargs"],
+                                                "target": sb.rel(o["filename"]) if o["type"] == "build_file" else None,
+                                                "servable": not o.get("raised") and not has_sf(o)})
                 if "suboperations" in o:
                     walk(o["suboperations"])
         walk(j["rootOperations"])
